@@ -131,12 +131,10 @@ func (dm *DMap) deleteOnCluster(hkey uint64, key string, f *fragment) error {
 func (dm *DMap) deleteKey(key string) error {
 	hkey := partitions.HKey(dm.name, key)
 	part := dm.getPartitionByHKey(hkey, partitions.PRIMARY)
-	f, err := dm.loadOrCreateFragment(part)
+	f, err := dm.lockFragment(part)
 	if err != nil {
 		return err
 	}
-
-	f.Lock()
 	defer f.Unlock()
 	verifhook.At("del.locked", dm.name, key)
 
